@@ -289,3 +289,15 @@ _run_c09 = run
 def run(ctx: Ctx):  # noqa: F811
     _run_c09(ctx)
     _registry_not_shrunk(ctx)
+
+
+_run_before_base_protocol = run
+
+
+def run(ctx: Ctx):  # noqa: F811
+    _run_before_base_protocol(ctx)
+    # base-protocol classes (not in the metamodel; emitted from hand-written templates): their shape is part of the message catalogue
+    from . import _imgbase as _ib
+    from ..common import P_TYPES as _PT
+    for construct, ok, msg, ln in _ib.base_protocol_shape(_ib.image(ctx)):
+        ctx.check(ok, "envelope-base-protocol", construct, msg, _PT, ln)
